@@ -33,11 +33,11 @@ def RULE(tier):
     return (
         f"A: da.percentile on EVERY 1-d array of length 1..{n} over 4 levels (duplicates) x EVERY chunking (plus every chunking with zero-length "
         f"chunks, <= 3 chunks, n <= 3) x every non-empty sorted sub-vector of {QFULL} (31; "
-        + ("n >= 5: the 8 listed in QSUB, n = 6 with methods linear/lower/nearest on int data" if tier == "thorough" else "n = 4: the 8 listed in QSUB")
-        + ") and scalar q x methods linear/lower/higher/nearest/midpoint x dtypes i8, f8 (quick: f8 in full for n <= 2, linear x QSUB for n = 3, none for n = 4) and f8 with levels (-inf, a, b, +inf) for "
+        + ("n >= 5: the 8 listed in QSUB, n = 6 with methods linear/lower on int data" if tier == "thorough" else "n = 4: the 8 listed in QSUB")
+        + ") and scalar q x methods linear/lower/higher/nearest/midpoint x dtypes i8, f8 (" + ("f8 in full for n <= 4, linear only for n = 5, none for n = 6" if tier == "thorough" else "f8 in full for n <= 2, linear x QSUB for n = 3, none for n = 4") + ") and f8 with levels (-inf, a, b, +inf) for "
         "lower/higher/nearest: bounds, monotone in q, end-points. B: da.nanpercentile along each axis vs np.nanpercentile on 1-d (n <= 4) and "
         "2-d (2,2),(2,3),(3,2) arrays with EVERY NaN placement x every chunking x q in {0, 50, 100, 30, [25,75], [0,50,100]} x keepdims x "
-        "methods (and every NaN/+inf placement on (2,2) with lower/higher/nearest). non-trivial = >= 2 chunks (A) / >= 2 chunks along the reduced axis (B)."
+        "methods (and every NaN/+inf placement on (2,2)" + (", (2,3) and (5,)" if tier == "thorough" else "") + " with lower/higher/nearest). non-trivial = >= 2 chunks (A) / >= 2 chunks along the reduced axis (B)."
     )
 
 
@@ -56,10 +56,11 @@ def all_q():
 def shards(tier):
     out = []
     n = NMAX[tier]
+    big = []
     for k in range(1, n + 1):
-        nparts = 1 if k <= 2 else (4 if k == 3 else 12 if k == 4 else 24)
+        nparts = 1 if k <= 2 else (4 if k == 3 else 12 if k == 4 else 24 if k == 5 else 48)
         for part in range(nparts):
-            out.append(("pct", k, part, nparts))
+            (out if k <= 4 else big).append(("pct", k, part, nparts))
     out.append(("pctz", 0, 0, 1))
     out.append(("pctinf", 0, 0, 1))
     for shp in [(1,), (2,), (3,), (4,), (2, 2)]:
@@ -74,7 +75,7 @@ def shards(tier):
                 out.append(("nanpct", shp, "vnp", part, 16))
         for part in range(4):
             out.append(("nanpct", (5,), "vnp", part, 4))
-    return out
+    return out + big  # simplest first: the n >= 5 percentile shards (thorough) come last
 
 
 def pct_cases(n, chunkings, tier, datas=None, dtypes=("i8", "f8"), methods=METHODS, qs=None):
@@ -98,8 +99,8 @@ def cases_of(shard, tier):
         qs = all_q() if (n < NMAX[tier] or tier == "thorough") else list(QSUB)
         methods = METHODS
         if tier == "thorough" and n >= 5:
-            qs = list(QSUB)  # thorough, n >= 5: the 8 QSUB vectors; n = 6: methods linear/lower/nearest on int data
-            methods = METHODS if n == 5 else ("linear", "lower", "nearest")
+            qs = list(QSUB)  # thorough, n >= 5: the 8 QSUB vectors; n = 6: methods linear/lower on int data
+            methods = METHODS if n == 5 else ("linear", "lower")
         datas = [d for i, d in enumerate(itertools.product(range(4), repeat=n)) if i % nparts == part]
         yield from pct_cases(n, chs, tier, datas=None if nparts == 1 else datas, qs=qs, methods=methods)
         if part == 0:
